@@ -56,10 +56,10 @@ var c05Shapes = []c05Shape{
 var c05ThoroughValues = map[string][]any{
 	"integer":       {2147483648.0, -2147483649.0, 100.0},
 	"number":        {0.0, 1e3, -1.25},
-	"string":        {"0", "false", "null", "x-y", "p", "pp1", "=", "a=b", "[", "a[b]", "Z"},
+	"string":        {"0", "false", "null", "x-y", "p", "pp1", "=", "a=b", "[", "a[b]", "Z", "a&b", "a+b", "a%b", "a;b", "a|b", "a,b", "a/b?c#d", "%41", "+"},
 	"array-integer": {l(1.0, 1.0), l(10.0, 20.0, 30.0, 40.0)},
-	"array-string":  {l("p", "pm"), l("a", "a"), l("1", "true")},
-	"object-flat":   {m("b", "1"), m("a", 10.0, "b", "a")},
+	"array-string":  {l("p", "pm"), l("a", "a"), l("1", "true"), l("a&b", "c=d"), l("a+b", "a b"), l("a|b"), l("a%2Cb", "[x]")},
+	"object-flat":   {m("b", "1"), m("a", 10.0, "b", "a"), m("b", "x&y=z"), m("a", 1.0, "b", "[b]"), m("b", "a+b c")},
 	"object-nested": {m("a", m("b", 1.0), "s", "p"), m("l", l(0.0))},
 }
 
@@ -243,6 +243,9 @@ func init() {
 			if c.presence == "present" {
 				value = c.shape.values[c.vi]
 				ambiguous = ref.Ambiguous(c.cell, value)
+				if r.Tier == "thorough" {
+					ambiguous = ref.AmbiguousEscaped(c.cell, value) // reserved characters travel percent-encoded in the query
+				}
 				// under a composition the text may parse as an earlier alternative
 				if s, isStr := value.(string); isStr && c.shape.name == "anyOf-integer-string" {
 					if _, e := fmt.Sscanf(s, "%d", new(int)); e == nil {
